@@ -209,6 +209,10 @@ func (o *C07Oracle) bounds(s *Sim, sn *chain.Snapshot) {
 		if pl.UsedStorage < 0 || pl.UsedStorage > pl.TotalStorage || pl.TotalStorage < 0 {
 			s.FailT("used-capacity-out-of-bounds", "", nil, "h=%d provider %s: UsedStorage=%d TotalStorage=%d", sn.Height, tail(sp), pl.UsedStorage, pl.TotalStorage)
 		}
+		// pledged capacity is what the capacity pledge pays for: one coin per 1,000,000 bytes
+		if paid := intOr0(pl.TotalStoragePledged.Amount); paid.IsInt64() && pl.TotalStorage > paid.Int64()*1_000_000 {
+			s.FailT("capacity-not-backed-by-pledge", "", nil, "h=%d provider %s: %d bytes of capacity are credited but the capacity pledge of %s pays for %d", sn.Height, tail(sp), pl.TotalStorage, pl.TotalStoragePledged, paid.Int64()*1_000_000)
+		}
 	}
 }
 
